@@ -438,6 +438,12 @@ class World:
             return "skipped"
         return O.do_refill_forward(self, d, op, p)
 
+    def op_set_trainable(self, op, p):
+        d = self.dep(op)
+        if d is None:
+            return "skipped"
+        return O.do_set_trainable(self, d, op, p)
+
     def op_lib(self, op, p):
         return O.do_lib(self, op, p)
 
